@@ -75,9 +75,8 @@ theorem C10_partial (g : Genesis) (ops : List Op) (r : SplitResult) :
   intro s hinv h
   exact C10_sum_le _ r hinv h
 
-/-- the deployment the reachability theorems start from: `InitConfig` for `g`, funded, with the repaired `A + B` check of
-`UpdateGlobalParam` (`fixes/C10-ab-sum-wrap.patch`; as shipped the `uint32` sum wraps, see `C10_ab_wrap_counterexample`) -/
-def start (g : Genesis) : St := { book := { initBook g with soundGp := true }, bank := (initSt true g).bank }
+/-- the deployment the reachability theorems start from: `InitConfig` for `g`, funded -/
+def start (g : Genesis) : St := initSt true g
 
 /-- **`GovInv` is an invariant of the contract** — its logical core, for ALL operation sequences (rejected ones included) from
 any genesis with distinct, non-empty peers: the position clause (`PosInv`: for every candidate of the settled view the
@@ -107,13 +106,11 @@ theorem C10_sum_le_reachable (g : Genesis) (ops : List Op) (r : SplitResult) (hn
     r.splitSum = csum r.credits :=
   C10_sum_le _ r (C10_govInv_reachable g ops hn hne hb) h
 
-/-- the code as shipped: `UpdateGlobalParam` accepts `A = 2^32 − 1, B = 101` (the `uint32` sum is 100), which breaks the
-`A + B ≤ 100` clause; the repaired check rejects it -/
-theorem C10_ab_wrap_counterexample :
-    gpSumBad false { candidateFee := 0, minInitStake := 1, candidateNum := 49, posLimit := 20, A := 4294967295, B := 101,
-                     yita := 5, penalty := 5 } = false ∧
-    gpSumBad true { candidateFee := 0, minInitStake := 1, candidateNum := 49, posLimit := 20, A := 4294967295, B := 101,
-                    yita := 5, penalty := 5 } = true := by
+/-- the repaired check of `UpdateGlobalParam` (/repo 73a62e81) rejects `A = 2^32 − 1, B = 101`, whose `uint32` sum is 100
+(the former finding `govinv-a-plus-b`; witness in `corpus/C10/ab-wrap.ops`) -/
+theorem C10_ab_wrap_rejected :
+    gpSumBad { candidateFee := 0, minInitStake := 1, candidateNum := 49, posLimit := 20, A := 4294967295, B := 101,
+               yita := 5, penalty := 5 } = true := by
   decide
 
 /-- **`nodeAmount − sumAmount` does not underflow**: under `candOK` the credits of one node add up to exactly the node's
